@@ -45,7 +45,8 @@ func (w *faultW) outcome(p []byte) (int, error) {
 	}
 	switch o {
 	case oErr:
-		return 0, fmt.Errorf("dest%d-call%d", w.id, i)
+		// an error comes with any byte count: none, all, or some of the bytes
+		return []int{0, len(p), len(p) / 2}[(w.salt+w.id+i)%3], fmt.Errorf("dest%d-call%d", w.id, i)
 	case oShort:
 		k := (w.salt + w.id + i) & 3
 		w.shorts[k]++
@@ -80,11 +81,25 @@ type c14case struct {
 	levels   []zerolog.Level
 	single   bool // no MultiLevelWriter: one destination directly
 	viaWrite bool // the multi writer is reached through its plain Write method (wrapped in a LevelWriterAdapter)
-	salt     int  // short-write size selector (see faultW.outcome)
+	salt     int  // short-write size selector (see faultW.outcome), wrapper, finalizer, hook and padding selector
+	bigPads  bool // some events exceed 64 KiB
+}
+
+// pad: some events are larger than the pooled 500-byte buffer, a few (bigPads) larger than 64 KiB
+func (c *c14case) pad(ei int) int {
+	switch (c.salt/4 + ei) % 5 {
+	case 1:
+		return 600
+	case 3:
+		if c.bigPads {
+			return 70000
+		}
+	}
+	return 0
 }
 
 func (c *c14case) String() string {
-	return fmt.Sprintf("{dests=%d events=%d outcomes(event-major)=%v filters=%v plainWriter=%v levels=%v single=%v viaWrite=%v shortSalt=%d}", c.d, c.e, c.matrix, c.filter, c.plain, c.levels, c.single, c.viaWrite, c.salt)
+	return fmt.Sprintf("{dests=%d events=%d outcomes(event-major)=%v filters=%v plainWriter=%v levels=%v single=%v viaWrite=%v salt=%d bigPads=%v}", c.d, c.e, c.matrix, c.filter, c.plain, c.levels, c.single, c.viaWrite, c.salt, c.bigPads)
 }
 
 func c14run(out *evid.Out, c *c14case) {
@@ -105,12 +120,24 @@ func c14run(out *evid.Out, c *c14case) {
 			}
 			w = &zerolog.FilteredLevelWriter{Writer: lw, Level: zerolog.Level(c.filter[i])}
 		}
+		// the failing destination may sit behind other writers of the package: the outcome must travel through
+		wrap := (c.salt + 2*i) % 5
+		if c.single {
+			wrap = 0 // the single-writer cases are about a destination used without any MultiLevelWriter
+		}
+		switch wrap {
+		case 1:
+			w = zerolog.SyncWriter(w)
+		case 2:
+			w = zerolog.MultiLevelWriter(w)
+		case 3:
+			w = zerolog.SyncWriter(zerolog.MultiLevelWriter(w))
+		}
 		ws[i] = w
 	}
 	// which events reach which destination
 	reach := func(di, ei int) bool {
-		// through the plain Write path no level is known: FilteredLevelWriter.Write passes everything
-		return c.viaWrite || c.filter[di] == -99 || int(c.levels[ei]) >= c.filter[di]
+		return c.filter[di] == -99 || int(c.levels[ei]) >= c.filter[di]
 	}
 	// script per destination: the outcome of its k-th *received* call is that of the k-th event reaching it
 	for di := 0; di < c.d; di++ {
@@ -132,7 +159,18 @@ func c14run(out *evid.Out, c *c14case) {
 	old := zerolog.ErrorHandler
 	zerolog.ErrorHandler = func(err error) { handled = append(handled, err) }
 	defer func() { zerolog.ErrorHandler = old }()
+	if c.viaWrite {
+		// through the plain Write path no level is known and what a level filter then does is not specified: no filters
+		for i := range c.filter {
+			if c.filter[i] != -99 {
+				panic("c14: viaWrite case with a filter")
+			}
+		}
+	}
 	l := zerolog.New(root)
+	if c.salt%4 == 1 {
+		l = l.Hook(zerolog.HookFunc(func(e *zerolog.Event, _ zerolog.Level, _ string) { e.Bool("hooked", true) }))
+	}
 	rep := map[string]interface{}{"check": "c14", "case": c.String()}
 	var wantBytes []string
 	for ei := 0; ei < c.e; ei++ {
@@ -140,7 +178,18 @@ func c14run(out *evid.Out, c *c14case) {
 		var pan interface{}
 		func() {
 			defer func() { pan = recover() }()
-			l.WithLevel(c.levels[ei]).Int("i", ei).Msg("m")
+			e := l.WithLevel(c.levels[ei]).Int("i", ei)
+			if n := c.pad(ei); n > 0 {
+				e = e.Str("pad", strings.Repeat("x", n))
+			}
+			switch (c.salt + ei) % 3 {
+			case 0:
+				e.Msg("m")
+			case 1:
+				e.Msgf("%s", "m")
+			default:
+				e.MsgFunc(func() string { return "m" })
+			}
 		}()
 		if pan != nil {
 			out.Violate("panic", fmt.Sprintf("logging call panicked: %v in %s", pan, c), rep)
@@ -150,7 +199,15 @@ func c14run(out *evid.Out, c *c14case) {
 		if c.levels[ei] != zerolog.NoLevel {
 			lvlTxt = fmt.Sprintf(`"level":%q,`, c.levels[ei].String())
 		}
-		wantBytes = append(wantBytes, fmt.Sprintf(`{%s"i":%d,"message":"m"}`+"\n", lvlTxt, ei))
+		padTxt := ""
+		if n := c.pad(ei); n > 0 {
+			padTxt = `"pad":"` + strings.Repeat("x", n) + `",`
+		}
+		hookTxt := ""
+		if c.salt%4 == 1 {
+			hookTxt = `"hooked":true,`
+		}
+		wantBytes = append(wantBytes, fmt.Sprintf(`{%s"i":%d,%s%s"message":"m"}`+"\n", lvlTxt, ei, padTxt, hookTxt))
 		// expected error: first destination in order whose outcome != ok among those reached
 		var wantErr string
 		for di := 0; di < c.d; di++ {
@@ -269,7 +326,7 @@ func c14(args []string) int {
 					c14run(out, c)
 					out.Case(rng.HashStr(c.String()), true)
 					out.Count("exhaustive_matrix_cases", 1)
-					if variant == 1 && m%3 == 0 {
+					if variant == 0 && m%3 == 0 {
 						c.viaWrite = true
 						c14run(out, c)
 						out.Case(rng.HashStr(c.String()), true)
@@ -316,7 +373,13 @@ func c14(args []string) int {
 			}
 		}
 		c.viaWrite = r.Chance(1, 4)
-		c.salt = r.Intn(4)
+		if c.viaWrite {
+			for j := range c.filter {
+				c.filter[j] = -99
+			}
+		}
+		c.salt = r.Intn(1000)
+		c.bigPads = r.Chance(1, 20)
 		c14run(out, c)
 		out.Case(rng.HashStr(c.String()), true)
 		out.Count("random_cases", 1)
@@ -328,7 +391,8 @@ func c14(args []string) int {
 		var se, so strings.Builder
 		cmd.Stderr, cmd.Stdout = &se, &so
 		err := cmd.Run()
-		if err != nil || strings.Count(se.String(), "zerolog: could not write event: boom") != 1 || !strings.Contains(so.String(), "SECOND-OK") {
+		// what is printed for a nil ErrorHandler is not specified; the call must return and the next event be complete
+		if err != nil || !strings.Contains(so.String(), "SECOND-OK") {
 			out.Violate("stderr-path", fmt.Sprintf("nil ErrorHandler: err=%v stderr=%q stdout=%q", err, se.String(), so.String()), map[string]interface{}{"check": "c14"})
 		}
 		out.Count("stderr_child_cases", 1)
